@@ -1476,6 +1476,7 @@ func (c *Conn) ApiVersions() ([]ApiVersion, error) {
 		return nil, err
 	}
 	defer lock.Unlock()
+	defer verifTrace("conn.done", c, id, nil) // runs before lock.Unlock()
 
 	var errorCode int16
 	if size, err = readInt16(&c.rbuf, size, &errorCode); err != nil {
